@@ -9,6 +9,7 @@ mod asmref;
 mod byteseng;
 mod common;
 mod ctxeng;
+mod helperseng;
 mod isa;
 mod isaeng;
 mod memeng;
@@ -32,6 +33,7 @@ fn run_engine(prop: &str, s: &mut Sink) {
         "C11" => memeng::run(s, true),
         "C09" => ctxeng::run(s),
         "C10" => apieng::run(s),
+        "C19" => helperseng::run(s),
         "C03" => isaeng::run(s, vm::Eng::Jit),
         "C04" => isaeng::run(s, vm::Eng::Cl),
         "C05" => byteseng::run(s, byteseng::Mode::C05),
@@ -57,6 +59,7 @@ pub fn replay_value(rp: &Value) -> Vec<String> {
         "mem" => memeng::replay(rp),
         "ctx" => ctxeng::replay(rp),
         "api" => apieng::replay(rp),
+        "helper" => helperseng::replay(rp),
         "verify" => byteseng::replay_verify(rp),
         "interp-total" => byteseng::replay_interp_total(rp),
         "compile-total" => byteseng::replay_compile_total(rp),
